@@ -90,17 +90,24 @@ func VerifC05eFormats(t, op, format, wiring int) {
 }
 
 func c05Run(t, op, where, wiring int, refOnly bool) {
-	// where: 0 none, 1 "where x > 3", 2 none but grouped by two fields (g,h), h possibly absent, 3 none but grouped by $line
+	// where: 0 none, 1 "where x > 3", 2 none but grouped by two fields (g,h), h possibly absent, 3 none but grouped by $line, 4 none but the aggregated field is assigned by "set $z = x"
 	twoKeys := where == 2
 	byLine := where == 3 // grouped by $line: the group key is the whole line, field delimiters included
-	if twoKeys || byLine {
+	setZ := where == 4   // the aggregated field is $z, assigned from x by a set clause ("set $z = x")
+	if twoKeys || byLine || setZ {
 		where = 0
 	}
 	dlog.VerifInstall(source.Client)
 	sel := ops[op] + "(x)"
+	if setZ {
+		sel = ops[op] + "($z)"
+	}
 	queryStr := "select " + sel + ",count(y) from T "
 	if where == 1 {
 		queryStr += "where x > 3 "
+	}
+	if setZ {
+		queryStr += "set $z = x "
 	}
 	if byLine {
 		queryStr += "group by $line logformat " + c05Formats[c05Format]
@@ -169,6 +176,10 @@ func c05Run(t, op, where, wiring int, refOnly bool) {
 		}
 		if byLine {
 			l.key = l.text
+		}
+		if setZ && !l.hasX {
+			// "set $z = x": when the line has no field x the right side is taken literally: $z = "x"
+			l.hasX, l.x = true, 'x'
 		}
 		all = append(all, l.text)
 		if l.part {
